@@ -232,6 +232,48 @@ class WorldC06(World):
         return md2
 
     def gen_op(self, rng):
+        if self.plan:
+            op = self.plan.pop(0)
+            op.setdefault('gc', True)
+            return op
+        op = self._gen_op0(rng)
+        if op is not None and op['op'].startswith('write_') and op['args'].get('opts', {}).get('to_file') and not self.plan \
+                and rng.random() < 0.06:
+            # scripted: the disk fills up half-way through a write; the caller frees space and writes the same thing again;
+            # later the interpreter collects what the failed call left behind
+            import copy as _copy
+            first = _copy.deepcopy(op)
+            first['fault'] = {'kind': 'write_error', 'k': 0.5, 'errno': 'ENOSPC'}
+            first['args']['enum'] = False
+            first['gc'] = False
+            second = _copy.deepcopy(first)
+            second['fault'] = None
+            o2 = second['args']['opts']                 # (other numbers than the failed attempt's)
+            if isinstance(o2.get('T'), (int, float)):
+                o2['T'] = round(o2['T'] + 41.0, 1)
+            elif isinstance(o2.get('T'), list):
+                o2['T'] = [round(t_ + 41.0, 3) for t_ in o2['T']]
+            for cnd in o2.get('conditions') or []:
+                cnd['T'] = round(cnd['T'] + 41.0, 1)
+            for fr in o2.get('fracs') or []:
+                for nm_ in fr:
+                    fr[nm_] = round(min(1.0, fr[nm_] * 0.5 + 0.1), 3)
+            third = _copy.deepcopy(second)
+            third['gc'] = True
+            self.plan = [second, third]
+            return first
+        if op is not None:
+            # when the interpreter gets round to finalising handles an earlier failed call may have left open
+            op['gc'] = rng.random() < 0.5
+            failed = sorted(self.kit.failed_last)
+            if failed and isinstance(op.get('args'), dict) and 'path' in op['args'] and op.get('fault') is None:
+                # right after a failed write: the caller tries the same file again, before anything has been collected
+                if rng.random() < 0.6:
+                    op['args']['path'] = rng.choice(failed)
+                    op['gc'] = False
+        return op
+
+    def _gen_op0(self, rng):
         sw = self.ctx.swarm
         c = rng.randrange(sw['n_clients'])
         if self.plan:
